@@ -11,7 +11,8 @@ from .common import Untranslatable, Out, parse_file, find_func
 
 OUTPUTS = ['GMiniPy']
 
-MESSAGE_CALLS = {'status_message', 'warning_message', 'print'}
+MESSAGE_CALLS = {'status_message', 'warning_message', 'print', 'running_dotdotdot'}
+LOG_CALLS = {'self.writeLog'}          # log-file output: not part of the embedding (the harness cross-checks the files)
 
 
 def cstring(s):
@@ -74,6 +75,8 @@ class Tr:
     def expr(self, e):
         if isinstance(e, ast.Constant):
             return '(EConst %s)' % const_value(e.value)
+        if isinstance(e, ast.Attribute) and isinstance(e.value, ast.Name) and e.value.id in self.assigned and e.value.id != 'self':
+            return '(ECall %s [%s])' % (cstring('.' + e.attr), self.expr(e.value))     # a field of an object held in a local variable
         d = dotted(e)
         if d is not None:
             if d in self.consts:
@@ -119,6 +122,10 @@ class Tr:
         if isinstance(e, ast.BinOp) and isinstance(e.op, ast.Sub) and isinstance(e.left, ast.Call) \
                 and isinstance(e.left.func, ast.Name) and e.left.func.id == 'set':
             return '(ESetDiff %s %s)' % (self.expr(e.left), self.expr(e.right))      # set(...) - b
+        if isinstance(e, ast.BinOp) and isinstance(e.op, ast.Pow):
+            return '(ECall "pow" [%s; %s])' % (self.expr(e.left), self.expr(e.right))
+        if isinstance(e, ast.BinOp) and isinstance(e.op, ast.Mod) and not (isinstance(e.left, ast.Constant) and isinstance(e.left.value, str)):
+            return '(EMod %s %s)' % (self.expr(e.left), self.expr(e.right))
         if isinstance(e, ast.BinOp):
             op = {ast.Add: 'EAdd', ast.Sub: 'ESub', ast.Mult: 'EMul', ast.Div: 'EDiv'}.get(type(e.op))
             if op is None:
@@ -130,7 +137,13 @@ class Tr:
             # np.where(arr OP c)[0]: the indices of the entries that satisfy the comparison, ascending
             c = e.value.args[0]
             op = {ast.Eq: 'EEq', ast.NotEq: 'ENe', ast.Lt: 'ELt', ast.LtE: 'ELe', ast.Gt: 'EGt', ast.GtE: 'EGe'}.get(type(c.ops[0]))
-            if op is None or not isinstance(c.comparators[0], ast.Constant):
+            if op is None:
+                raise Untranslatable('np.where condition')
+            if isinstance(c.left, ast.BinOp) and isinstance(c.left.op, ast.Div) and isinstance(c.left.left, ast.Name):
+                # (array / scalar) OP bound: element-wise quotient
+                return '(EEnumFilter "$i" "$x" (%s (EDiv (EVar "$x") %s) %s) (EVar "$i") %s)' % (
+                    op, self.expr(c.left.right), self.expr(c.comparators[0]), self.expr(c.left.left))
+            if not isinstance(c.comparators[0], ast.Constant):
                 raise Untranslatable('np.where condition')
             return '(EEnumFilter "$i" "$x" (%s (EVar "$x") %s) (EVar "$i") %s)' % (op, self.expr(c.comparators[0]), self.expr(c.left))
         if isinstance(e, ast.Subscript):
@@ -148,6 +161,21 @@ class Tr:
                     and f.attr in ('sample', 'randint', 'random'):
                 # a random draw: an ORACLE indexed by its call site (each site of the tied functions runs at most once per call)
                 return self.draw(f.attr, [self.expr(a) for a in e.args])
+            if dotted(f) in ('np.argmin', 'numpy.argmin') and len(e.args) == 1 and not e.keywords and isinstance(e.args[0], ast.Call) \
+                    and isinstance(e.args[0].func, ast.Name) and e.args[0].func.id == 'abs' and len(e.args[0].args) == 1 \
+                    and isinstance(e.args[0].args[0], ast.BinOp) and isinstance(e.args[0].args[0].op, ast.Sub):
+                d = e.args[0].args[0]         # np.argmin(abs(a - b)): a float decision, an oracle of the tie
+                return '(ECall "argmin_abs_diff" [%s; %s])' % (self.expr(d.left), self.expr(d.right))
+            if dotted(f) in ('np.exp', 'np.log', 'np.mean') and len(e.args) == 1 and not e.keywords:
+                return '(ECall %s [%s])' % (cstring(dotted(f)), self.expr(e.args[0]))
+            if isinstance(f, ast.Name) and f.id == 'min' and len(e.args) == 1 and not e.keywords:
+                return '(ECall "min" [%s])' % self.expr(e.args[0])
+            if dotted(f) == 't.time' and not e.args and not e.keywords:
+                return '(EConst VNone)'                      # wall-clock time: only ever printed
+            if isinstance(f, ast.Attribute) and isinstance(f.value, ast.Name) and f.value.id in self.assigned and f.value.id not in self.rngs \
+                    and not e.keywords and f.attr not in ('join', 'lower', 'isspace', 'upper', 'strip', 'count', 'append', 'pop') and e.args:
+                # a method (with arguments) of an object held in a local variable: primitive ".method"(object, args)
+                return '(ECall %s [%s])' % (cstring('.' + f.attr), '; '.join([self.expr(f.value)] + [self.expr(a) for a in e.args]))
             if dotted(f) == 'lkupTab.lookUpCharge' and len(e.args) == 1 and not e.keywords:
                 return '(ECall "lookUpCharge" [%s])' % self.expr(e.args[0])      # the residue table (tied by charge_tie)
             if dotted(f) in ('np.append', 'numpy.append') and len(e.args) == 2 and not e.keywords:
@@ -287,6 +315,19 @@ class Tr:
             for h in reversed(out[:-1]):
                 r = '(SSeq %s %s)' % (h, r)
             return r
+        if isinstance(s, ast.If) and any(isinstance(n, ast.Name) and n.id.startswith('_VERIF_') for n in ast.walk(s.test)):
+            return 'SSkip'                      # the guarded verification hook (LOCALCIDER_VERIF): not part of the library's behaviour
+        if isinstance(s, ast.Expr) and isinstance(s.value, ast.Call) and dotted(s.value.func) in LOG_CALLS:
+            return 'SSkip'
+        if isinstance(s, ast.Assign) and len(s.targets) == 1 and isinstance(s.targets[0], ast.Tuple) and isinstance(s.value, ast.Call):
+            # (a, b, ...) = f(...): the call's result is bound once, then unpacked by position
+            tmp = self.fresh()
+            out = ['(SAssign %s %s)' % (cstring(tmp), self.expr(s.value))]
+            out += [self.assign_to(t, '(EIndex (EVar %s) (EConst (VInt (%d))))' % (cstring(tmp), i)) for i, t in enumerate(s.targets[0].elts)]
+            r = out[-1]
+            for h in reversed(out[:-1]):
+                r = '(SSeq %s %s)' % (h, r)
+            return r
         if isinstance(s, ast.Expr):
             v = s.value
             if isinstance(v, ast.Constant) and isinstance(v.value, str):
@@ -387,6 +428,9 @@ FUNCS = [
     ('g_Omega_seq', 'localcider/backend/sequence.py', 'Sequence', 'Omega_seq', []),
     ('g_parseSeqFile', 'localcider/backend/seqfileparser.py', 'SequenceFileParser', 'parseSeqFile', []),
     ('g_init_core', 'localcider/backend/sequence.py', 'Sequence', '__init__', [], ('upto', 'self.dmax = dmax')),
+    ('g_wl_step', 'localcider/backend/wang_landau.py', 'WangLandauMachine', 'run_normal_WL', [], ('while-body', 'f > self.convergence')),
+    ('g_wl_flatcheck', 'localcider/backend/wang_landau.py', 'WangLandauMachine', '__run_flatcheck', []),
+    ('g_wl_inside', 'localcider/backend/wang_landau.py', 'WangLandauMachine', 'indexInsideRelevantRegion', []),
     ('g_swapRes', 'localcider/backend/sequence.py', 'Sequence', 'swapRes', []),
     ('g_full_shuffle', 'localcider/backend/sequence.py', 'Sequence', 'full_shuffle', []),
     ('g_swapRandChargeRes', 'localcider/backend/sequence.py', 'Sequence', 'swapRandChargeRes', []),
@@ -407,6 +451,23 @@ def generate(repo):
                 if len(idx) != 1:
                     raise Untranslatable('statement `%s` not found exactly once' % select[1])
                 node = ast.FunctionDef(name=node.name, args=node.args, body=node.body[:idx[0] + 1], decorator_list=[])
+            elif isinstance(select, tuple) and select[0] == 'while-body':      # the body of the one while-loop with the given test
+                hits = [n for n in ast.walk(node) if isinstance(n, ast.While) and ' '.join(ast.unparse(n.test).split()) == select[1]]
+                if len(hits) != 1 or hits[0].orelse:
+                    raise Untranslatable('loop `while %s:` not found exactly once' % select[1])
+                preseed = []
+                for n in ast.walk(node):          # every local of the function counts as assigned (objects bound before the loop)
+                    if isinstance(n, (ast.Assign, ast.AugAssign)):
+                        for t in (n.targets if isinstance(n, ast.Assign) else [n.target]):
+                            for m in ([t] if isinstance(t, ast.Name) else (t.elts if isinstance(t, ast.Tuple) else [])):
+                                if isinstance(m, ast.Name) and m.id not in preseed:
+                                    preseed.append(m.id)
+                for n in node.body:               # generators created before the loop
+                    if isinstance(n, ast.Assign) and isinstance(n.value, ast.Call) and dotted(n.value.func) == 'rng.Random' \
+                            and isinstance(n.targets[0], ast.Name):
+                        preseed.append('rng:' + n.targets[0].id)
+                node = ast.FunctionDef(name=node.name, args=node.args, body=hits[0].body, decorator_list=[])
+                node._preseed = preseed
             elif select is not None:          # translate one top-level if-block of the function (its body), chosen by its test
                 hits = [n for n in node.body if isinstance(n, ast.If) and ' '.join(ast.unparse(n.test).split()) == select]
                 if len(hits) != 1 or hits[0].orelse:
@@ -418,6 +479,11 @@ def generate(repo):
                 for k, v in data.items():
                     consts[p + k] = v
             tr = Tr(consts)
+            for x in getattr(node, '_preseed', []):
+                if x.startswith('rng:'):
+                    tr.rngs.add(x[4:])
+                elif x not in tr.assigned:
+                    tr.assigned.append(x)
             term = tr.block(node.body)
             params = [a.arg for a in node.args.args]
             return ('(* %s.%s(%s) in %s *)\nDefinition %s : stmt :=\n  %s.\nDefinition %s_assigned : list string := [%s].'
